@@ -672,6 +672,12 @@ func (e *Env) selector(x *ESel) tv {
 						if c, ok := p.Scope().Lookup(x.Name).(*types.Const); ok {
 							return tv{u.constVal(ssa.NewConst(c.Val(), c.Type())), c.Type()}
 						}
+						// qualified package-level function: the function value
+						if f, ok := p.Scope().Lookup(x.Name).(*types.Func); ok {
+							if fn := u.prog.ssaProg.FuncValue(f); fn != nil {
+								return tv{u.reifyFn(&FnVal{Fn: fn}), f.Type()}
+							}
+						}
 						// qualified package-level variable: its current value
 						if v, ok := p.Scope().Lookup(x.Name).(*types.Var); ok {
 							if sp := u.prog.ssaPkgs[p.Path()]; sp != nil {
